@@ -721,8 +721,21 @@ func (st *Runtime) evalPrimaryExpressionGroup(node Expression) reflect.Value {
 			} else {
 				node.EndIndex.errorf("non numeric value in index expression kind %s", indexExpression.Kind().String())
 			}
-		} else {
+		}
+
+		switch baseExpression.Kind() {
+		case reflect.Array, reflect.Slice, reflect.String:
+		default:
+			node.errorf("cannot slice value of type %s", getTypeString(baseExpression))
+		}
+		if baseExpression.Kind() == reflect.Array && !baseExpression.CanAddr() {
+			node.errorf("cannot slice unaddressable array of type %s", getTypeString(baseExpression))
+		}
+		if node.EndIndex == nil {
 			length = baseExpression.Len()
+		}
+		if index < 0 || length < index || length > baseExpression.Len() {
+			node.errorf("slice bounds out of range [%d:%d] with length %d", index, length, baseExpression.Len())
 		}
 
 		return baseExpression.Slice(index, length)
